@@ -1535,3 +1535,9 @@ mod tests {
         assert_eq!(rc, 0);
     }
 }
+
+// Verification hook: harnesses live outside the repository (see MANIFEST.hooks of the verifier).
+#[cfg(kani)]
+pub(crate) mod verif_kani {
+    include!(concat!(env!("FINDUTILS_VERIF_DIR"), "/harness/find.rs"));
+}
